@@ -311,6 +311,7 @@ impl Report {
             .set("counters", J::Obj(g.counters.iter().map(|(k, v)| (k.clone(), J::i(*v as i64))).collect()))
             .set("samples", J::Arr(g.samples.clone()))
             .set("machinery", J::Arr(g.machinery.iter().map(|m| J::s(m.clone())).collect()))
+            .set("sets", J::Obj(g.sets.iter().map(|(k, v)| (k.clone(), J::Arr(v.iter().map(|m| J::s(m.clone())).collect()))).collect()))
     }
     pub fn import(&self, j: &J) {
         let mut g = self.inner.lock().unwrap();
@@ -344,6 +345,18 @@ impl Report {
                 }
             }
         }
+        if let Some(J::Obj(o)) = j.get("sets") {
+            for (k, v) in o {
+                if let Some(a) = v.as_arr() {
+                    let set = g.sets.entry(k.clone()).or_default();
+                    for x in a {
+                        if set.len() < 10_000 {
+                            set.insert(x.as_str().unwrap_or("").to_string());
+                        }
+                    }
+                }
+            }
+        }
         if let Some(a) = j.get("machinery").and_then(|v| v.as_arr()) {
             for x in a {
                 if g.machinery.len() < 20 {
@@ -352,6 +365,57 @@ impl Report {
             }
         }
     }
+}
+
+// ---------------------------------------------------------------- main-thread watchdog
+//
+// `par_for` watches its workers. Phases that run on the main thread of a
+// process (computing expectations, the single-threaded child processes of C15
+// and C17) are watched by this second watchdog: they call `beat()` once per
+// case while `armed`.
+
+pub static MAIN_HB: std::sync::atomic::AtomicU64 = std::sync::atomic::AtomicU64::new(0);
+pub static MAIN_ARMED: std::sync::atomic::AtomicBool = std::sync::atomic::AtomicBool::new(false);
+static MAIN_DESC: Mutex<String> = Mutex::new(String::new());
+
+#[inline]
+pub fn beat() {
+    MAIN_HB.fetch_add(1, std::sync::atomic::Ordering::Relaxed);
+}
+
+pub fn arm(desc: &str) {
+    *MAIN_DESC.lock().unwrap() = desc.to_string();
+    beat();
+    MAIN_ARMED.store(true, std::sync::atomic::Ordering::SeqCst);
+}
+
+pub fn disarm() {
+    MAIN_ARMED.store(false, std::sync::atomic::Ordering::SeqCst);
+}
+
+/// Start the watchdog of the main thread (once per process).
+pub fn start_main_watchdog(property: String, tier: String) {
+    use std::sync::atomic::Ordering;
+    let hang_secs: u64 = std::env::var("VERIF_HANG_SECS").ok().and_then(|s| s.parse().ok()).unwrap_or(90);
+    std::thread::spawn(move || {
+        let mut last = 0u64;
+        let mut stalled = 0u64;
+        loop {
+            std::thread::sleep(std::time::Duration::from_secs(1));
+            let h = MAIN_HB.load(Ordering::Relaxed);
+            if MAIN_ARMED.load(Ordering::SeqCst) && h == last {
+                stalled += 1;
+                if stalled >= hang_secs {
+                    let desc = MAIN_DESC.lock().map(|d| d.clone()).unwrap_or_default();
+                    let rep = Report::new(&property, &tier);
+                    rep.abort_no_progress(usize::MAX >> 1, stalled, desc);
+                }
+            } else {
+                stalled = 0;
+            }
+            last = h;
+        }
+    });
 }
 
 pub fn fnv(b: &[u8]) -> u64 {
